@@ -40,7 +40,7 @@ COMPONENTS = {
 ASSUMPTIONS = ["reference = the structure theorems re-implemented by split search (ref/growth.py), agreeing with each other under inverse",
                "Fibonacci bound with F = 1,1,2,3,5,8,... (counts of the sums of 1 and 21)"]
 EXPECTED_PROBES = ["memo_hit_other_basis", "one_shot_stream", "symmetric_image", "memo_flush", "cli", "av_method",
-                   "enumeration_crosscheck", "duplicates_or_permuted", "finite_basis", "polynomial_basis", "ins_enc_only_topmost", "interrupted_call", "class_object_address_reused"]
+                   "enumeration_crosscheck", "duplicates_or_permuted", "finite_basis", "polynomial_basis", "ins_enc_only_topmost", "interrupted_call", "class_object_address_reused", "empty_basis_or_empty_permutation"]
 
 ENTRY = ["is_finite", "is_polynomial", "is_non_polynomial", "is_insertion_encodable", "rightmost", "maximum",
          "av_is_finite", "av_is_polynomial", "av_is_insertion_encodable", "cli_poly", "cli_insenc"]
@@ -90,11 +90,16 @@ def gen_case(rng, tier):
             img = list(rng.choice(RP.symmetries(tuple(p))))
             if img not in uni:
                 uni.append(img)
+    if rng.random() < 0.06:
+        uni.append([])  # the empty permutation: legal for the functions (Av and the CLI reject it)
     nb = rng.choice([2, 2, 3, 4])
     bases = []
     for _ in range(nb):
         k = rng.choice([1, 2, 2, 3, 3, 4])
         bases.append(sorted(rng.sample(range(len(uni)), min(k, len(uni)))))
+    if rng.random() < 0.05:
+        bases.append([])  # the empty basis
+        nb += 1
     ops = []
     for _ in range(rng.randint(6, 30) if rng.random() >= 0.03 else rng.randint(80, 200)):
         r = rng.random()
@@ -105,11 +110,11 @@ def gen_case(rng, tier):
             if rng.random() < 0.1:
                 # the call is interrupted after that many executed library lines; the memo
                 # tables keep whatever it had written
-                ops[-1]["interrupt"] = int(10 ** rng.uniform(0, 3.2)) if rng.random() < 0.9 else {"guided": round(rng.random(), 3)}
+                ops[-1]["interrupt"] = int(10 ** rng.uniform(0, 3.2)) if rng.random() < 0.75 else {"guided": round(rng.random(), 3)}
         elif r < 0.9:
             ops.append({"op": "memo_flush", "which": rng.choice(["poly", "insenc", "both"])})
         elif r < 0.94:
-            ops.append({"op": "clear_class_cache"})
+            ops.append({"op": "clear_class_cache", "mode": rng.choice(["plain", "orphans"])})
         else:
             ops.append({"op": "enumerate", "basis": rng.randrange(nb)})
     # some histories start on whatever the earlier histories of this process left in the
@@ -217,26 +222,34 @@ def execute(case):
             seen_ids = set()
             bad = None
             try:
+                orphans = op.get("mode") == "orphans"
                 for phase in (0, 1):
                     order = list(range(len(case["bases"])))
                     if phase:
                         order = order[1:] + order[:1]
                     keep = []
+                    av = None
                     for bi in order:
-                        base = [uni[i] for i in case["bases"][bi] if i < len(uni)]
+                        base = [uni[i] for i in case["bases"][bi] if i < len(uni) and len(uni[i]) > 0]
                         if not base:
                             continue
                         av = pm.Av([pm.Perm(p) for p in base])
-                        keep.append(av)
+                        keep.append((av, base))
                         if phase and id(av) in seen_ids:
                             out.probe("class_object_address_reused")
                         seen_ids.add(id(av))
+                    if orphans and not phase:
+                        # the class cache is cleared while the objects are still held; they are
+                        # asked afterwards, and only then dropped (without another clear)
+                        pm.Av.clear_cache()
+                    for av, base in keep:
                         got = (av.is_finite(), av.is_polynomial(), av.is_insertion_encodable())
                         exp = (RG.is_finite(base), RG.is_polynomial(base), RG.is_insertion_encodable(base))
                         if got != exp and bad is None:
                             bad = (phase, base, got, exp)
                     del keep, av
-                    pm.Av.clear_cache()
+                    if not (orphans and not phase):
+                        pm.Av.clear_cache()
                     gc.collect()
             except Exception as exc:  # pylint: disable=broad-except
                 hist.violate("exception", {"entry": "av_after_clear", "type": type(exc).__name__}, f"{type(exc).__name__}: {exc}")
@@ -260,8 +273,13 @@ def execute(case):
         if op["basis"] >= len(case["bases"]):
             continue
         base = [uni[i] for i in case["bases"][op["basis"]] if i < len(uni)]
-        if not base:
-            continue
+        # the empty basis and bases containing the empty permutation are legal arguments of the
+        # functions only: Av and the CLI reject them
+        special = (not base) or any(len(p) == 0 for p in base)
+        if special:
+            if kind == "enumerate" or op.get("entry", "").startswith(("av_", "cli_")):
+                continue
+            out.probe("empty_basis_or_empty_permutation")
         if kind == "enumerate":
             # the verdicts against real enumeration through Av
             out.probe("enumeration_crosscheck")
